@@ -41,7 +41,7 @@ def main():
             continue
         diff_ref, diff_impl = [], []
         for cs in c["cases"]:
-            ek = "".join(str(cs["e"][str(i)]) for i in range(c["k"]))
+            ek = "".join(str(cs["e"][str(i)]) for i in range(c["k"] + 1))
             got = sorted(set(r["res"].get(ek, [])))
             exp, impl = sorted(cs["exp"]), sorted(cs["impl"])
             if cs["ambig"]:
@@ -73,6 +73,6 @@ def main():
     ctx.cov["programs"] = len(progs)
     ctx.cov["replays_meeting_reference"] = meets
     ctx.exhaustive = True
-    ctx.assumptions = ["branch conditions are unary predicates of one variable; the base condition is true for every element",
+    ctx.assumptions = ["branch conditions and the base condition are unary predicates of one variable; the world has one element per truth vector of all of them",
                        "for elements on which several sibling refinements of one node hold the statement does not say which wins: not compared"]
     return ctx.finish()
